@@ -373,7 +373,14 @@ def r5(ctx, F):
         if built[0] != 'agg' or built[2] != adt:
             ctx.violation('C07-R5', '%s:ok-shape' % mode, 'Ok value of %s is not a %s literal: %s' % (f.path, adt, prov.show(built, maxdepth=2)), f.where())
             continue
-        fields = built[4]
+        fields = dict(built[4])
+        # `..Self::from_map_or_attrs(x)` style: resolve fields taken from a local constructor call by inlining it
+        for fk, fv in list(fields.items()):
+            sv = prov.strip(fv, names=set())
+            if sv[0] == 'field' and prov.strip(sv[1], names=set())[0] == 'call' and prov.strip(sv[1], names=set())[1].get('local'):
+                inl = prov.inline_call(F, prov.strip(sv[1], names=set()))
+                if inl is not prov.strip(sv[1], names=set()):
+                    fields[fk] = prov.project_field(inl, sv[2])
         tbl = R5_TABLE[mode]
         for tf, sf in tbl.items():
             if tf not in fields:
